@@ -20,7 +20,7 @@ ERR_SUBST = {
     "passage_adapters::Error": "AdapterError",
 }
 CONN_GENERICS = ["S", "Stat", "Disc", "Filt", "Stra", "Auth", "Loca"]
-CONN_SUBST = {"CipherStream<S,Aes128Cfb8Enc,Aes128Cfb8Dec>": "Stream", "Cursor<Vec<u8>>": "Reader"}
+CONN_SUBST = {"CipherStream<S,Aes128Cfb8Enc,Aes128Cfb8Dec>": "Stream", "Cursor<Vec<u8>>": "Reader", "S": "&mut ProxiedStream"}
 STATICS = {
     "crypto::ENCODED_PUB": "crypto::encoded_pub()",
     "crypto::KEY_PAIR.0": "crypto::private_key()",
@@ -39,7 +39,7 @@ CONN_USES = """
     use std::sync::Arc;
 """
 CONN_RULES = ["deasync", "attrs", "log", "match_packet", "select", "const_pat", "let_chain", "closure_wild", "label_block",
-              "statics", "mut_self", "generics", "take_read", "break_value", "as_deref", "try_desugar"]
+              "statics", "mut_self", "generics", "take_read", "break_value", "as_deref", "try_desugar", "parse_lit"]
 
 
 def read_text(*parts):
